@@ -60,6 +60,7 @@ func (h HelperContext) BlockWith(hc hctx.Context) (string, error) {
 	ev := *h.compiler
 	ev.ctx = ctx
 	ev.recv = nil
+	ev.writing = nil
 
 	i, err := ev.evalBlockStatement(h.block)
 	if err != nil {
